@@ -9,7 +9,7 @@ use std::panic::{catch_unwind, AssertUnwindSafe};
 use rt::alloc::{self, track, Block};
 use rt::case::{pick, ByteCase};
 use rt::run::{CaseReport, Engine};
-use rt::tok::{Al, A1, A16, A2, A32, A4, A64, A8};
+use rt::tok::{Al, A1, A16, A2, A256, A32, A4, A4096, A64, A8};
 use rt::viol;
 use triomphe::{Arc, ArcBorrow, ArcUnion, ArcUnionBorrow, HeaderSlice, HeaderWithLength, OffsetArc, ThinArc, UniqueArc};
 
@@ -1091,6 +1091,9 @@ pub type E8 = S<A8, 24>;
 pub type E9 = S<A16, 16>;
 pub type E10 = S<A32, 32>;
 pub type E11 = S<A64, 0>;
+/// alignments beyond one byte's worth (an offset kept in a u8 truncates) and a page
+pub type E12 = S<A256, 256>;
+pub type E13 = S<A4096, 4096>;
 
 fn run_pair<H: Shape, E: Shape>(cx: &mut Ctx, p: &ByteCase, fams: &[u8]) {
     let f = fams[pick(p.p(3), fams.len())];
@@ -1120,7 +1123,9 @@ macro_rules! dispatch_e {
             8 => run_pair::<$h, E8>($cx, $p, $fams),
             9 => run_pair::<$h, E9>($cx, $p, $fams),
             10 => run_pair::<$h, E10>($cx, $p, $fams),
-            _ => run_pair::<$h, E11>($cx, $p, $fams),
+            11 => run_pair::<$h, E11>($cx, $p, $fams),
+            12 => run_pair::<$h, E12>($cx, $p, $fams),
+            _ => run_pair::<$h, E13>($cx, $p, $fams),
         }
     };
 }
@@ -1162,7 +1167,7 @@ impl Engine for MatrixEngine {
         let _ = viol::take();
         let mut cx = Ctx { what: String::new(), trace: if trace { Some(vec![]) } else { None }, over_or_zst_or_padded: false, release_differs: false, moved_between: false, union_nt: false, lens: 0 };
         let hi = pick(case.p(0), 10);
-        let ei = pick(case.p(1), 12);
+        let ei = pick(case.p(1), 14);
         let r = catch_unwind(AssertUnwindSafe(|| match hi {
             0 => dispatch_e!(&mut cx, case, &self.fams, H0, ei),
             1 => dispatch_e!(&mut cx, case, &self.fams, H1, ei),
